@@ -235,4 +235,40 @@ def hostHost (s : Srv) (peer : Option Peer) (r : HostReq) : Option HostMeta :=
       then none
       else some ⟨protoOf r.proto, t, r.src, r.dst, r.srcHost, r.dstHost⟩
 
+/-! ### request histories on one server
+
+The handlers keep no state: the answer to a request is a function of the server's configuration,
+the request, and what the certificate verifier says about the chain presented *with this
+request*.  `serve` is therefore a `map`; the harness checks that the real, long-lived `Server`
+agrees with it on histories (no memoisation of earlier verifications, no cross-request leakage). -/
+
+inductive Req
+  | l1 (peer : Option Peer) (proto : Int) (ts : Ts)
+  | il1 (peer : Option Peer) (proto : Int) (ts : Ts) (src dst : Nat)
+  | sv (peer : Option Peer) (proto : Int) (ts : Ts)
+  | ah (peer : Option Peer) (r : HostReq)
+  | ha (peer : Option Peer) (r : HostReq)
+  | hh (peer : Option Peer) (r : HostReq)
+deriving DecidableEq, Repr
+
+inductive Ans
+  | level1 (m : Option Level1Meta)       -- `Engine.DeriveLevel1`
+  | intra (m : Option Level1Meta)        -- `Engine.GetLevel1Key`
+  | secret (m : Option SVMeta)
+  | asHost (m : Option HostMeta)
+  | hostAS (m : Option HostMeta)
+  | hostHost (m : Option HostMeta)
+deriving DecidableEq, Repr
+
+def handle (s : Srv) : Req → Ans
+  | .l1 peer proto ts => .level1 (level1 s peer proto ts)
+  | .il1 peer proto ts src dst => .intra (intraLevel1 s peer proto ts src dst)
+  | .sv peer proto ts => .secret (secretValue s peer proto ts)
+  | .ah peer r => .asHost (asHost s peer r)
+  | .ha peer r => .hostAS (hostAS s peer r)
+  | .hh peer r => .hostHost (hostHost s peer r)
+
+/-- the answers of one server to a history of requests, in order -/
+def serve (s : Srv) (hist : List Req) : List Ans := hist.map (handle s)
+
 end Scion.DrkeySrv
